@@ -69,7 +69,7 @@ CHECKS["C13"] = dict(
 CHECKS["C07"] = dict(
     test="TestC07", level="exploration",
     common=dict(shrinktime="1s", env={"GOMEMLIMIT": "3GiB"}),
-    quick=dict(shards=14, checks=7, timeout=1200),
+    quick=dict(shards=14, checks=5, timeout=1200),
     thorough=dict(shards=16, checks=60, timeout=3400),
     assumptions=_LEDGER_ASSUME + ["truncation is triggered through the hook calling the real truncate synchronously; truncation racing with proposals is sampled by C18's workload only"],
 )
